@@ -225,4 +225,17 @@ CHECKS = {
                 "plain happy paths.",
         "assumptions": COMMON_ASSUME + ["a handler that panics is C14's finding, not counted here"],
     },
+    "C09": {
+        "quick": 400, "thorough": 20000,
+        "rule": "rapid draws a two-scope configuration and 2..5 session scripts (authentication scripts of every C10 flavour: ASCII at "
+                "each stage, user in START or CONTINUE, PAP, wrong passwords, aborts, misplaced packets; command/session "
+                "authorizations; accounting) with session ids from a pool whose members collide modulo 256 and differ only in high "
+                "bits, then either a merge order of their packets on one single-connect connection, or an assignment to 2..4 "
+                "connections driven concurrently by separate goroutines (same session id reused on different connections). "
+                "Oracle (metamorphic): each session's transcript (packet count, raw reply header, cleartext reply body, closed flag "
+                "per request) equals the transcript of the same script run alone on a fresh connection of a freshly started server "
+                "with the same configuration. Non-trivial: >=2 sessions simultaneously open on the connection, or >=2 concurrent "
+                "connections.",
+        "assumptions": COMMON_ASSUME + ["scripts that make the server close the whole connection (key-mismatch bodies, sequence violations) are not part of this domain: that effect on neighbours is the protocol's"],
+    },
 }
